@@ -27,7 +27,7 @@ int	__wrap_timerfd_settime(int fd, int flags, const struct itimerspec *n, struct
 
 #define TIMEOUT_MS 3600000ull
 #define BIG 24576
-enum { H_DRAIN = 1, H_FIRE, H_DGRAM, H_CLOSE };
+enum { H_DRAIN = 1, H_FIRE, H_DGRAM, H_CLOSE, H_BURST };
 typedef struct hstep_s { uint8_t op; uint16_t k; } hstep_t;
 #define MAXH 24
 static struct {
@@ -68,7 +68,7 @@ case_desc(char *b, size_t n) {
 	int i; size_t o;
 	o = (size_t)snprintf(b, n, "%s evfl=%d tmo=%d consume=%d win=%d hist:", C.mode ? "dgram" : "shortwrite", C.evflags, C.timeout, C.consume, C.win);
 	for (i = 0; i < C.nh && o + 12 < n; i ++)
-		o += (size_t)snprintf(b + o, n - o, " %s%d", (H_DRAIN == C.h[i].op) ? "drain" : (H_FIRE == C.h[i].op) ? "fire" : (H_DGRAM == C.h[i].op) ? "dg" : "close", C.h[i].k);
+		o += (size_t)snprintf(b + o, n - o, " %s%d", (H_DRAIN == C.h[i].op) ? "drain" : (H_FIRE == C.h[i].op) ? "fire" : (H_DGRAM == C.h[i].op) ? "dg" : (H_BURST == C.h[i].op) ? "burst" : "close", C.h[i].k);
 }
 
 static int
@@ -158,6 +158,15 @@ apply(const hstep_t *s) {
 		if (peer_open && dg_sent < 8) {
 			for (i = 0; i < s->k; i ++) tmp[i] = pay(dg_sent * 16 + i);
 			if ((ssize_t)s->k == send(sk[1], tmp, s->k, 0)) { dg_size[dg_sent] = s->k; dg_sent ++; }
+		}
+		break;
+	case H_BURST: /* two datagrams (sizes k/16 and k%16) queued before the loop gets to run */
+		for (n = 0; n < 2; n ++) {
+			int sz = n ? (s->k % 16) : (s->k / 16);
+			if (peer_open && dg_sent < 8) {
+				for (i = 0; i < sz; i ++) tmp[i] = pay(dg_sent * 16 + i);
+				if ((ssize_t)sz == send(sk[1], tmp, (size_t)sz, 0)) { dg_size[dg_sent] = sz; dg_sent ++; }
+			}
 		}
 		break;
 	case H_CLOSE:
@@ -304,6 +313,14 @@ gen_dgrams(int depth, int used_fire) {
 		C.h[C.nh].op = H_DGRAM; C.h[C.nh].k = (uint16_t)sizes[i]; C.nh ++;
 		gen_dgrams(depth + 1, used_fire);
 		C.nh --;
+	}
+	{	/* bursts: two datagrams arrive before the task is called */
+		static const int b2[5] = { 1 * 16 + 3, 3 * 16 + 1, 3 * 16 + 3, 8 * 16 + 1, 1 * 16 + 8 };
+		for (i = 0; i < 5; i ++) {
+			C.h[C.nh].op = H_BURST; C.h[C.nh].k = (uint16_t)b2[i]; C.nh ++;
+			gen_dgrams(depth + 1, used_fire);
+			C.nh --;
+		}
 	}
 }
 
